@@ -808,10 +808,13 @@ func (s *Subscription) processModelEvent(event *rescache.ResourceEvent) {
 				for _, sub := range subs {
 					s.refs[sub.rid].pending = false
 				}
+				// Remove the replaced references before releasing the new
+				// ones, as that may process queued events of other
+				// subscriptions, which must see what the client now holds.
+				removeOld()
 				for _, sub := range subs {
 					sub.ReleaseRPCResources()
 				}
-				removeOld()
 
 				s.unqueueEvents(queueReasonLoading)
 			})
